@@ -8,6 +8,9 @@ Leg R: coding / coefficient matrices, names, drop field, format, spans_intercept
        Contrasts classes (dense and sparse, via ContrastsState too) are compared with the model
        under three labelings of the levels; data vectors over levels + {null, unseen} are encoded
        through encode_contrasts (3 outputs) and through model_matrix("C(x, contr...)").
+       Order (MC_ContrastsOrder): polynomial scores in every order of writing (row i = polynomial of score i), and data
+       arriving in a categorical carrier whose own category order is any arrangement of any subset of the nominated levels
+       (the nominated list decides); the design errors "sorted-scores" / "trust-carrier" are refuted by TLC on the same families.
 """
 from __future__ import annotations
 
@@ -147,9 +150,21 @@ def replay_poly(case):
                 bad.append({**base, "why": "coefficient matrix is not the inverse of [1|coding]"})
             if not numpy.allclose(cm.sum(axis=0), 0, atol=1e-9) or not numpy.allclose(cm.T @ cm, numpy.eye(n - 1), atol=1e-9):
                 bad.append({**base, "why": "columns not orthonormal / not summing to zero"})
+            # encoding data = indicator x coding: the row of a level is the polynomial of ITS score (every level, last to first, then the first again)
+            import pandas
+            from formulaic.transforms import encode_contrasts
+            from formulaic.model_spec import ModelSpec
+
+            idx = list(range(n - 1, -1, -1)) + [0]
+            for output in ("pandas", "numpy", "sparse"):
+                enc = encode_contrasts(pandas.Series([levels[i] for i in idx], dtype=object), contrasts=k, levels=levels, reduced_rank=True, output=output,
+                                       _spec=ModelSpec(formula=[], output=output))
+                arr = dense(enc) if output == "sparse" else numpy.asarray(enc, dtype=float)
+                if arr.shape != (n + 1, n - 1) or not numpy.allclose(arr, E[idx], atol=1e-9):
+                    bad.append({**base, "output": output, "why": "encoded values (polynomial contrasts)", "observed": arr.tolist(), "expected": E[idx].tolist()})
         except Exception as e:  # noqa
             bad.append({**base, "why": "exception", "observed": type(e).__name__ + ": " + str(e)[:150]})
-    return bad, 2
+    return bad, 5
 
 
 def replay_encode(case):
@@ -296,14 +311,90 @@ def replay_custom(case):
     return bad, cnt
 
 
+def replay_carrier(case):
+    """the data arrive in a carrier with a category order of its own (categorical dtype; `own` = any arrangement of any non-empty subset of the
+    nominated levels, `codes` into it, 0 = null): the explicit level list decides reference level, column order and names - not the carrier.
+    Gamma side of MC_ContrastsOrder: Series of categorical dtype, bare Categorical, ordered categorical; encode_contrasts and C(...) in a formula."""
+    import pandas
+    from formulaic import model_matrix
+    from formulaic.transforms import encode_contrasts
+    from formulaic.model_spec import ModelSpec
+
+    n, o, own, codes = case["n"], case["o"], case["own"], case["codes"]
+    red, full = (fl(case["reduced"]) if n > 1 else numpy.zeros((len(codes), 0))), fl(case["full"])
+    bad, cnt = [], 0
+    for lname, levels in list(labelings(n).items())[:2]:
+        cats = [levels[i - 1] for i in own]
+        k = make(o, levels)
+        base = {"contrast": o, "n": n, "labeling": lname, "data": f"categories {cats} codes {[c - 1 for c in codes]} levels {levels}"}
+        for cname in ("series", "categorical", "ordered-series"):
+            cat = pandas.Categorical.from_codes([c - 1 for c in codes], categories=cats, ordered=cname.startswith("ordered"))
+            data = cat if cname == "categorical" else pandas.Series(cat)
+            for output in ("pandas", "numpy", "sparse"):
+                for reduced, exp in ((True, red), (False, full)):
+                    cnt += 1
+                    try:
+                        with warnings.catch_warnings():
+                            warnings.simplefilter("ignore")
+                            enc = encode_contrasts(data, contrasts=k, levels=levels, reduced_rank=reduced, output=output, _spec=ModelSpec(formula=[], output=output))
+                        arr = dense(enc) if output == "sparse" else numpy.asarray(enc, dtype=float)
+                        if not close(arr.reshape(exp.shape) if arr.size == exp.size else arr, exp):
+                            bad.append({**base, "output": output, "reduced": reduced, "why": f"encoded values (data in a categorical carrier: {cname})", "observed": arr.tolist(), "expected": exp.tolist()})
+                    except Exception as e:  # noqa
+                        bad.append({**base, "output": output, "reduced": reduced, "why": f"exception (data in a categorical carrier: {cname})", "observed": type(e).__name__ + ": " + str(e)[:150]})
+        if lname == "strings":
+            cnt += 1
+            try:
+                df = pandas.DataFrame({"x": pandas.Categorical.from_codes([c - 1 for c in codes], categories=cats)})
+                f = f"C(x, {expr(o, levels)}, levels={levels!r})"
+                with warnings.catch_warnings():
+                    warnings.simplefilter("ignore")
+                    mm = model_matrix(f, df, na_action="ignore", output="numpy", context={})
+                arr = numpy.asarray(mm, dtype=float)[:, 1:]
+                names = [f"{f}[{case['prefix']}{levels[j - 1]}]".replace('"', "'") for j in case["collevels"]]
+                got = [g.replace('"', "'") for g in mm.model_spec.column_names][1:]
+                if not close(arr, red):
+                    bad.append({**base, "why": "model_matrix with C(..., levels=) on a categorical column", "formula": f, "observed": arr.tolist(), "expected": red.tolist()})
+                elif got != names:
+                    bad.append({**base, "why": "column names through a formula (categorical column)", "observed": got, "expected": names})
+            except Exception as e:  # noqa
+                bad.append({**base, "why": "exception in model_matrix (categorical column)", "observed": type(e).__name__ + ": " + str(e)[:150]})
+    return bad, cnt
+
+
 def replay_case(case):
-    return {"matrix": replay_matrix, "poly": replay_poly, "encode": replay_encode, "custom": replay_custom}[case["kind"]](case)
+    return {"matrix": replay_matrix, "poly": replay_poly, "encode": replay_encode, "custom": replay_custom, "carrier": replay_carrier}[case["kind"]](case)
+
+
+def order_cases(ctx: Ctx):
+    """MC_ContrastsOrder: score sets in every order of writing, data in carriers with their own category order; the two design errors must be refuted"""
+    out = workdir("c11") / "order.ndjson"
+    out.unlink(missing_ok=True)
+    cfg = f'SPECIFICATION Spec\nCONSTANTS\n  MaxN = 3\n  MaxPolyN = {4 if ctx.quick else 5}\n  Emit = TRUE\n  Variant = "code"\n'
+    r = run_tlc("MC_ContrastsOrder", cfg + "INVARIANT PolyOrderLaws\nINVARIANT CarrierLaws\nINVARIANT EmitCase\n", tag="c11o", env={"OUT_FILE": str(out)}, timeout=3000)
+    if r.violated:
+        ctx.model_violation(r, "MC_ContrastsOrder")
+    ctx.add_tlc(r, "polynomial rows follow the scores in every order of writing (linear column = centred scores, permutation equivariance, orthogonality); "
+                   "the rows encoded from a categorical carrier depend on the labels and the nominated level list only (reference level of the nominated list) + emission")
+    for variant, law in (("sorted-scores", "PolyOrderLaws"), ("trust-carrier", "CarrierLaws")):
+        v = run_tlc("MC_ContrastsOrder", cfg.replace('"code"', f'"{variant}"').replace("Emit = TRUE", "Emit = FALSE").replace("MaxPolyN = 5", "MaxPolyN = 4") + f"INVARIANT {law}\n",
+                    tag="c11o", timeout=3000)
+        if law not in v.violated:
+            raise MachineryError(f"MC_ContrastsOrder: the design error {variant!r} does not violate {law} - the family is vacuous")
+    ctx.notes["contrast_order_design_errors_refuted"] = ["sorted-scores (scores silently sorted)", "trust-carrier (category order of the data's dtype instead of the nominated levels)"]
+    cases = read_emitted(out)
+    out.unlink()
+    if len(cases) != r.distinct:
+        raise MachineryError(f"emission incomplete: {len(cases)} of {r.distinct}")
+    return cases
 
 
 def run(ctx: Ctx) -> None:
     ctx.rule = ("matrices: n = 1..MaxN x {treatment with every base, SAS, sum, Helmert x reverse x scale, difference x direction} x 3 labelings; polynomial: "
                 "n = 2..5 with default and non-default scores; encoding: n = 1..3 x every option x every data vector of length <= 3 over levels + "
-                "{null/unseen} x 2 labelings x 3 outputs x reduced/full, through Contrasts.apply on numpy / pandas / sparse indicator matrices, and through model_matrix on pandas frames and Arrow tables; non-trivial = n >= 3")
+                "{null/unseen} x 2 labelings x 3 outputs x reduced/full, through Contrasts.apply on numpy / pandas / sparse indicator matrices, and through model_matrix on pandas frames and Arrow tables; "
+                "order: n = 2..4 (thorough 5) x every score set x every order of writing; n = 1..3 x every option x every arrangement of every non-empty subset of the levels as "
+                "the categories of a categorical carrier x 2 code vectors (every category and a null; descending with a repeat) x 2 labelings x 3 carriers x 3 outputs x reduced/full, and through model_matrix; non-trivial = n >= 3")
     ctx.trusted = ["sqrt taken by the harness for the polynomial normalisation", "float comparison at 1e-10 relative", "TLC", "Rat.tla (TLC reports integer overflow)"]
     out = workdir("c11") / "cases.ndjson"
     out.unlink(missing_ok=True)
@@ -317,12 +408,13 @@ def run(ctx: Ctx) -> None:
     out.unlink()
     if len(cases) != r.distinct:
         raise MachineryError(f"emission incomplete: {len(cases)} of {r.distinct}")
+    cases += order_cases(ctx)
     res = pmap("harness.props.c11", "replay_case", cases, chunk=20)
     for c, (bad, n) in zip(cases, res):
         ctx.traces += n
         ctx.evaluations += n
         if c["n"] >= 3:
-            ctx.nontrivial.add(jhash([c["kind"], c["n"], c.get("o"), c.get("li"), c.get("scores")]))
+            ctx.nontrivial.add(jhash([c["kind"], c["n"], c.get("o"), c.get("li"), c.get("scores")] + ([c["own"], c["codes"]] if c["kind"] == "carrier" else [])))
         for b in bad:
             ctx.violation({k: b.get(k) for k in ("contrast", "n", "labeling", "data", "output", "reduced", "scores", "variant")} | {"why": b["why"]}, b, kind="replay")
     for c in [c for c in cases if c["kind"] == "matrix" and c["n"] == 4 and c["o"]["name"] == "helmert" and c["o"]["scale"] and c["o"]["reverse"]][:1]:
